@@ -575,6 +575,7 @@ void genAtomic(Prng& r, Plan& p, int tier)
 		T = 8 + (int)r.below(9);
 	p.p["threads"] = T;
 	p.p["type"] = r.below(3); // 0 int, 1 double, 2 Array<int>
+	p.p["publish"] = r.below(3) == 0; // Array<int> only: published value (assign + copy construction) instead of appends
 	for (int t = 0; t < T; t++)
 	{
 		int n = heavy ? 10 + (int)r.below(31) : 1 + (int)r.below(4);
@@ -642,8 +643,68 @@ void runAtomicNum(const Plan& p, const char* tn)
 		sim::fail("impossible_value", tn, "%s: an operation returned a value no serial order can produce (%d times)", tn, bad);
 }
 
+// Atomic<Array<int>> used as a published value: writers replace it with fresh arrays (x = fresh), readers take a copy of
+// the Atomic itself (copy construction) and look at it. Every copy must be one of the published arrays, intact, and every
+// published array is destroyed exactly once, after its last reader.
+void runAtomicPublish(const Plan& p)
+{
+	int T = (int)std::max<int64_t>(2, std::min<int64_t>(16, p.get("threads", 2)));
+	size_t heap0 = sim::heapLive();
+	{
+		asl::Atomic<asl::Array<int>> x(asl::Array<int>(3, 7));
+		std::vector<std::vector<int>> ops((size_t)T);
+		for (auto& o : p.ops)
+			if (o.k == "a")
+			{
+				size_t t = (size_t)(std::abs(o.arg(0)) % T);
+				if (ops[t].size() < 24)
+					ops[t].push_back((int)(std::abs(o.arg(1)) % 8));
+			}
+		volatile int bad = 0;
+		volatile int* badp = &bad;
+		std::vector<Task> tasks((size_t)T);
+		for (int t = 0; t < T; t++)
+			tasks[(size_t)t].start([&, t]() {
+				int n = 0;
+				for (int k : ops[(size_t)t])
+				{
+					if (t % 2 == 0 && k < 4)
+					{
+						// publish: 2..4 elements, all equal to a tag of this writer
+						int tag = 1000 * (t + 1) + n++;
+						x = asl::Array<int>(2 + k % 3, tag);
+					}
+					else
+					{
+						asl::Atomic<asl::Array<int>> snap(x);
+						asl::Array<int> a = ~snap;
+						bool ok = a.length() >= 2 && a.length() <= 4;
+						for (int i = 1; ok && i < a.length(); i++)
+							ok = a[i] == a[0];
+						if (!ok)
+							__sync_fetch_and_add(badp, 1);
+					}
+				}
+			});
+		for (auto& t : tasks)
+			t.join();
+		sim::NoSched ns;
+		sim::setNontrivial();
+		if (bad)
+			sim::fail("wrong_content", "Atomic<Array<int>>;published", "a copy of the Atomic (copy construction) was not one of the published arrays (%d times)", bad);
+	}
+	sim::NoSched ns;
+	if (sim::heapTracking() && sim::heapLive() != heap0)
+		sim::fail("leak", "Atomic<Array<int>>;published;heap", "heap blocks live after the last published array was dropped: %zu (before: %zu)", sim::heapLive(), heap0);
+}
+
 void runAtomicArr(const Plan& p)
 {
+	if (p.get("publish"))
+	{
+		runAtomicPublish(p);
+		return;
+	}
 	int T = (int)std::max<int64_t>(1, std::min<int64_t>(16, p.get("threads", 2)));
 	size_t heap0 = sim::heapLive();
 	int total = 0;
